@@ -137,6 +137,11 @@ class HashClient:
             client.client_class = self.client_class
 
         key = self._make_client_key(server)
+        # A server that comes back (or is added twice) replaces its client:
+        # do not leave the old client's connection(s) open.
+        previous = self.clients.get(key)
+        if previous is not None:
+            previous.close()
         self.clients[key] = client
         self.hasher.add_node(key)
 
